@@ -387,6 +387,9 @@ class SqlalchemyRender:
             sa_function = getattr(sa.func, t.op)
         except AttributeError:
             raise NotImplementedError(f'Function name: {t.op}')
+        if not isinstance(sa_function, sa_fnc._FunctionGenerator):
+            # a name like __repr__ or __hash__ resolves to a python attribute of sa.func, not to a sql function
+            raise NotImplementedError(f'Function name: {t.op}')
 
         def op(*args):
             try:
